@@ -130,7 +130,7 @@ MODELLED = {
     'lark/parsers/lalr_parser_state.py': ['ParserState.feed_token', 'ParserState.copy'],
     'lark/parsers/lalr_interactive_parser.py': ['InteractiveParser.accepts', 'InteractiveParser.copy', 'InteractiveParser.as_immutable'],
     'lark/parse_tree_builder.py': ['maybe_create_child_filter', 'ChildFilter.__call__', 'ChildFilterLALR.__call__', 'ChildFilterLALR_NoPlaceholders.__call__', 'ExpandSingleChild.__call__',
-                                   'PropagatePositions.__call__', 'ParseTreeBuilder._init_builders', 'ParseTreeBuilder.create_callback'],
+                                   'PropagatePositions.__call__', 'PropagatePositions._pp_get_meta', 'ParseTreeBuilder._init_builders', 'ParseTreeBuilder.create_callback'],
     'lark/parser_frontends.py': ['ParsingFrontend._scan' if False else 'ParsingFrontend.scan'],
     'lark/indenter.py': ['Indenter.handle_NL', 'Indenter._process', 'Indenter.process'],
     'lark/visitors.py': ['Transformer._transform_tree', 'Transformer_NonRecursive.transform', 'Transformer_InPlace.transform', 'CollapseAmbiguities.__default__'],
